@@ -161,6 +161,23 @@ func runDesc(sc M) {
 			if wc, err := signature.ReadWinCertificateUEFIGUID(bytes.NewReader(in[16:])); err != nil || wc.Header.Length != d.AuthInfo.Header.Length || wc.CertType != d.AuthInfo.CertType || !bytes.Equal(wc.CertData, d.AuthInfo.CertData) {
 				fail("%s: ReadWinCertificateUEFIGUID on the certificate part disagrees (%v)", tag, err)
 			}
+			// a decoded value whose certificate data and type GUID are then replaced (same length: a re-signature) is a value like any
+			// other: encoding it and decoding the result reproduces the edited value, not the one that was decoded first
+			if len(d.AuthInfo.CertData) > 0 {
+				ed := *d
+				ed.AuthInfo.CertData = prbytes("edited-certdata", len(d.AuthInfo.CertData))
+				og := guidOf(map[string]string{"g": otherGUIDWire}, "g")
+				if hexs(in[24:40]) == otherGUIDWire {
+					og = guidOf(map[string]string{"g": pkcs7GUIDWire}, "g")
+				}
+				ed.AuthInfo.CertType = og
+				var we bytes.Buffer
+				ed.Marshal(&we)
+				var de signature.EFIVariableAuthentication2
+				if err := de.Unmarshal(bytes.NewBuffer(append([]byte{}, we.Bytes()...))); err != nil || !bytes.Equal(de.AuthInfo.CertData, ed.AuthInfo.CertData) || de.AuthInfo.CertType != og || de.Time != ed.Time {
+					fail("%s: an edited value (certificate data and type GUID replaced) does not survive encode + decode (%v)", tag, err)
+				}
+			}
 			// decode(encode(v)) = v
 			var d2 signature.EFIVariableAuthentication2
 			w2 := bytes.NewBuffer(append([]byte{}, w.Bytes()...))
